@@ -87,7 +87,7 @@ def judgeC16 (kind id rest impl : String) : Verdict :=
     let c := parsePCase id rest
     let mo := runP c
     let (io, _) := parsePObs2 impl
-    let fi := facetsC16P c c.ops io; let fm := facetsC16P c c.ops mo
+    let fi := facetsC16P c (explicitOps c io) io; let fm := facetsC16P c (explicitOps c mo) mo
     let proj (o : PObs) : String := acceptPattern o ++ projTiming o.file ++ projOffsets o.file ++
       (match parseMovie o.file with
        | some m => s!"{hex m.mvhd}{m.tracks.map fun t => hex t.tkhd ++ hex t.stsd.ser}"
